@@ -10,6 +10,9 @@ Curve arithmetic comes from the Lean reference (`Cose.Crypto.Weierstrass`, `Ed25
 namespace Cose.Key
 open Cose.Go Cose.Gen Cose.Gen.Tables Cose.Crypto
 
+/-- a non-negative integer as a fixed-length big-endian octet string (`big.Int.FillBytes`), low-order bytes kept -/
+def fixedLen (len n : Nat) : Bytes := beBytes len n
+
 def getB (k : Key) (l : Int) : Option Bytes :=
   match getBytes (k.lookup (lbl l)) with
   | .ok b => b
@@ -103,6 +106,12 @@ def checkEcdsa (k : Key) : Bool :=
    else true) &&
   sigRoleOk k hasD hasX && kidOk k
 
+/-- `curve.ScalarBaseMult(d)` as Go returns it: the point at infinity comes back as (0, 0) -/
+def basePoint (c : Curve) (d : Nat) : Nat × Nat :=
+  match scalarBaseMult c d with
+  | .inf => (0, 0)
+  | .affine a b => (a, b)
+
 /-- `ecdsa.ToPublicKey` (coordinates emitted fixed-length, embedded ones compared as integers) -/
 def ecdsaToPublic (k : Key) : Res Key :=
   if !checkEcdsa k then .err "key-invalid"
@@ -112,8 +121,9 @@ def ecdsaToPublic (k : Key) : Res Key :=
     | none => .err "key-invalid"
     | some ci =>
       let d := os2ip ((getB k Iana.EC2KeyParameterD).getD [])
-      match (match scalarBaseMult ci.curve d with | .inf => ((0 : Nat), (0 : Nat)) | .affine a b => (a, b)) with
-      | (px, py) =>
+      let px := (basePoint ci.curve d).1
+      let py := (basePoint ci.curve d).2
+      (
         let xbad := k.has (lbl Iana.EC2KeyParameterX) &&
           (os2ip ((getB k Iana.EC2KeyParameterX).getD []) != px ||
            (match getBytes (k.lookup (lbl Iana.EC2KeyParameterY)) with
@@ -123,8 +133,8 @@ def ecdsaToPublic (k : Key) : Res Key :=
         else
           let base : Key := [(lbl Iana.KeyParameterKty, .int .int Iana.KeyTypeEC2),
                              (lbl Iana.EC2KeyParameterCrv, (k.lookup (lbl Iana.EC2KeyParameterCrv)).getD .nil)]
-          .ok (((copyCommon k base [opVerify]).set (lbl Iana.EC2KeyParameterX) (.bytes (i2osp px ci.curve.byteLen))).set
-                (lbl Iana.EC2KeyParameterY) (.bytes (i2osp py ci.curve.byteLen)))
+          .ok (((copyCommon k base [opVerify]).set (lbl Iana.EC2KeyParameterX) (.bytes (fixedLen ci.curve.byteLen px))).set
+                (lbl Iana.EC2KeyParameterY) (.bytes (fixedLen ci.curve.byteLen py))))
 
 def stripZeros : Bytes → Bytes
   | 0 :: r => stripZeros r
@@ -159,11 +169,12 @@ def ecdsaPrivate (k : Key) : Res (Curve × Nat) :=
     | none => .err "key-invalid"
     | some ci =>
       let d := os2ip ((getB k Iana.EC2KeyParameterD).getD [])
-      match (match scalarBaseMult ci.curve d with | .inf => ((0 : Nat), (0 : Nat)) | .affine a b => (a, b)) with
-      | (px, py) =>
+      let px := (basePoint ci.curve d).1
+      let py := (basePoint ci.curve d).2
+      (
         let xbad := match getB k Iana.EC2KeyParameterX with | some x => os2ip x != px | none => false
         let ybad := match getB k Iana.EC2KeyParameterY with | some y => os2ip y != py | none => false
-        if xbad || ybad then .err "xy-mismatch" else .ok (ci.curve, d)
+        if xbad || ybad then .err "xy-mismatch" else .ok (ci.curve, d))
 
 /-- hash prescribed by the algorithm (`Alg.HashFunc`) -/
 def hashOfAlg (a : Int) : Option (Bytes → Bytes) :=
@@ -177,7 +188,7 @@ def decodeSig (c : Curve) (sig : Bytes) : Option (Nat × Nat) :=
 /-- `EncodeSignature`: each of r, s left-padded to the curve size; refused if it does not fit -/
 def encodeSig (c : Curve) (r s : Nat) : Option Bytes :=
   if r ≥ 256 ^ c.byteLen || s ≥ 256 ^ c.byteLen then none
-  else some (i2osp r c.byteLen ++ i2osp s c.byteLen)
+  else some (fixedLen c.byteLen r ++ fixedLen c.byteLen s)
 
 /-! ## signature implementation objects -/
 
